@@ -9,7 +9,7 @@ LEVEL_TEXT = {
  "C01": "Bounded symbolic execution (rs2smt + z3) of (a) the real SnapshotWriter / SnapshotReader / message code over a modelled file and protobuf primitive layer, including a file left by an interrupted build (counterexamples replayed on real files), and (b) the start-up chain StateApplyManager::{init,load_index,load_snapshot,load_log,load_complete} with recording collaborators and symbolic catalogue / last-applied index: snapshot before log, replay range exactly the applied suffix, load-complete delivered. Narrow: the seven components' own snapshot handlers are outside.",
  "C02": "Bounded model checking (Kani/CBMC) of the log file's index arithmetic at full integer width (index rewind, index-area parsing, scan start) plus bounded symbolic execution (rs2smt + z3) of the real LogInnerManager over a modelled file layer: appends, a refused wrong-index append, reopen. The chunk-boundary end-of-log logic is decided under C20.",
  "C03": "Bounded model checking (Kani/CBMC) of the truncation arithmetic for every cut point and index-entry width, plus bounded symbolic execution (rs2smt + z3) of the real LogInnerManager: appends, delete-from every k (on and across index entries), re-appends of any length, optional reopen.",
- "C04": "Bounded symbolic execution (rs2smt + z3) of the real log-file code with a symbolic crash point over the journal of its file mutations (also inside an operation, also during the creation of a new file): the log reopens and shows the state of the last acknowledged operation or of the one in flight; counterexamples and sampled paths are executed on the real LogInnerManager. Narrow: one log file; cross-file orders between actors are outside.",
+ "C04": "Bounded symbolic execution (rs2smt + z3) of the real log-file code with a symbolic crash point over the journal of its file mutations (also inside an operation, also during the creation of a new file) and of the raft index file: the log reopens and shows the state of the last acknowledged operation or of the one in flight; counterexamples and sampled paths are executed on the real LogInnerManager. Narrow: one file at a time; cross-file orders between actors are outside.",
  "C05": "Bounded symbolic execution (rs2smt + z3) of the real index-file code (init, write_index, write_last_applied_log, message code, FileMessageReader) over a modelled file layer: save hard state then restart, symbolic 64-bit values; every sequence of 2-3 requests to the RaftIndexManager actor (hard state, membership, addresses, catalogue, last-applied) observed in-process and after restart; plus Kani for the id codec at all u64.",
  "C07": "Translation validation of three programs (leader apply, follower batch, start-up replay): each request variant is symbolically evaluated through the three real function bodies and the emitted (actor, message) terms are compared by z3; plus the last-applied bookkeeping of the batch path vs the single path.",
  "C08": "Bounded symbolic execution (rs2smt + z3) of the receiving side of a snapshot installation in one process: FileStore::finalize_snapshot_installation and the ApplySnapshot handler of StateApplyManager with recording collaborators; oracle over the emissions (catalogue entry, membership, log split-off and pointer entry, every snapshot record delivered to the state machine followed by load-complete); counterexamples replayed on a real node through RaftStorage::{create_snapshot, finalize_snapshot_installation}. Narrow: the sending side and the raft protocol around the installation are outside. One known finding (S08-a).",
